@@ -11,6 +11,7 @@ import (
 	"runtime"
 	"runtime/debug"
 	"slices"
+	"sort"
 	"strings"
 
 	"golang.org/x/tools/go/ssa"
@@ -475,6 +476,9 @@ func runFrame(fr *frame) {
 		nonPhis := executePhis(fr)
 		for _, instr := range nonPhis {
 			m.steps++
+			if profileOn {
+				profile[fr.fn.String()]++
+			}
 			if m.steps > m.cfg.MaxSteps {
 				m.abort("budget:steps")
 			}
@@ -552,4 +556,29 @@ func targetStack(fr *frame) string {
 		sb.WriteString(" <- ")
 	}
 	return sb.String()
+}
+
+var profileOn = os.Getenv("VERIF_PROFILE") != ""
+var profile = map[string]int{}
+
+// DumpProfile prints the per-function instruction counts (single worker runs only).
+func DumpProfile() {
+	if !profileOn {
+		return
+	}
+	type kv struct {
+		k string
+		v int
+	}
+	var all []kv
+	for k, v := range profile {
+		all = append(all, kv{k, v})
+	}
+	sort.Slice(all, func(i, j int) bool { return all[i].v > all[j].v })
+	for i, e := range all {
+		if i >= 40 {
+			break
+		}
+		fmt.Fprintf(os.Stderr, "%10d %s\n", e.v, e.k)
+	}
 }
